@@ -140,7 +140,11 @@ func (t *traversal[S, T]) visit(ctx context.Context, eg *errgroup.Group, node *v
 			result T
 		)
 		yield("run.begin")
-		if !t.skip(node) {
+		if ctx.Err() != nil {
+			// traversal already failed or was cancelled: don't start new visits,
+			// the coordinator may have returned and released its slot
+			err = ctx.Err()
+		} else if !t.skip(node) {
 			result, err = t.visitor(ctx, node.key, *node.service)
 		}
 		yield("run.visited")
